@@ -3,7 +3,7 @@
   weighted mean (weights 1..k, newest heaviest) of exactly the last k = min(t, n) inputs, for
   every period, every finite stream, every prefix.  Follows the SimpleMovingAverage template.
 -/
-import TaRs.Lemmas.WeightedMovingAverage
+import TaRs.Lemmas.Core.WeightedMovingAverage
 import TaRs.Lemmas.Ring
 import TaRs.Lemmas.XLemmas
 import TaRs.Lemmas.Machine
